@@ -28,7 +28,8 @@ PROPS = {
 
 PROPS["C16"] = dict(
     lean_modules=["QuaiVerif.Props.C16"],
-    areas=[dict(name="addr", n_quick=400, n_thorough=6000, seeds_thorough=3, n_search=2000)],
+    areas=[dict(name="addr", n_quick=400, n_thorough=6000, seeds_thorough=3, n_search=2000),
+           dict(name="utxo", n_quick=300, n_thorough=6000, seeds_thorough=2, n_search=1500)],
     rule="a case is one node location plus 10-40 operations over byte strings of length 0-40 biased to the location prefix byte, the 127/128 ledger "
          "boundary and all-zero addresses: every constructor/decoder (bytes, bytes20, hex, proto, scan, pubkey, CREATE, CREATE2, RLP, JSON, text), scope "
          "predicates, StateDB account creation with adversarial addresses, GrindContract; non-trivial = yields both kinds or reaches state/grind",
@@ -97,7 +98,7 @@ PROPS["C14"] = dict(
 
 PROPS["C03"] = dict(
     lean_modules=["QuaiVerif.Props.C03"],
-    areas=[dict(name="sign", n_quick=400, n_thorough=6000, seeds_thorough=3, n_search=1500), dict(name="utxo", n_quick=300, n_thorough=6000, seeds_thorough=2, n_search=1500)],
+    areas=[dict(name="sign", spec_ops=("sender", "sigvals"), n_quick=400, n_thorough=6000, seeds_thorough=3, n_search=1500), dict(name="utxo", n_quick=300, n_thorough=6000, seeds_thorough=2, n_search=1500)],
     facts=["tx_fields"],
     rule="a case is one really signed Quai transaction (random key, optional to/data/access list, chain id incl. 0) and: 4 boundary (v,r,s) triples through "
          "ValidateSignatureValues; Sender through 6 signers of equal/different/zero chain id on the same object (cache); 7 single-field mutations carrying the "
